@@ -18,7 +18,10 @@ RULE = ("API level (fresh Program per case, no-progress detector on the size loo
         "PC-relative sweep (every distance 0..140 both directions, nested statements); (5) INCLUDE graphs in a temp "
         "directory: missing file, self-include, 2-/3-cycles, diamonds, nesting; (6) 19 line templates x 6 characters "
         "outside printable ASCII (Latin-1, U+0100, U+20AC, beyond the BMP, DEL, a control) in strings, character "
-        "literals, labels, comments and operands. CLI level (real assembler.py "
+        "literals, labels, comments and operands; (7) very long tokens, lines and programs (decimal literals of up to "
+        "5000 digits in 14 operand positions, 5000-character labels, 8000-character strings, 30000-element lists, "
+        "20000 statements); (8) 12 shapes of EQU symbols defined through each other (alias and expression cycles, "
+        "chains, undefined ends) x 11 uses x definition before/after use. CLI level (real assembler.py "
         "processes with --to_bin/--to_cas/--to_dsk): no traceback; on a diagnostic exit status != 0 and no output "
         "file created. Oracle: outcome is OK or a Parse/Translation diagnostic with a message and a printable "
         "statement; never an internal exception, never a hang. Non-trivial = outcome is not OK, or the case is of "
@@ -86,7 +89,8 @@ _raw = st.text(alphabet=list("ABXL01 \t$#%<>[],+-*/'\";@.:") + _ODD_CHARS, max_s
 # mostly one generated line in a valid context: a second bad line would only be shadowed by the first diagnostic
 _token_program = st.one_of(st.lists(_line, min_size=1, max_size=1), st.lists(_line, min_size=1, max_size=1),
                            st.lists(st.one_of(_line, _line, _line, _raw), min_size=1, max_size=8))
-_equ_tail = st.sampled_from([[], ["E0 EQU 5\n"], ["E0 EQU -1\n"], ["E0 EQU L0+1\n"], ["E0 EQU E0\n"], ["E0 EQU 0\n"]])
+_equ_tail = st.sampled_from([[], ["E0 EQU 5\n"], ["E0 EQU -1\n"], ["E0 EQU L0+1\n"], ["E0 EQU E0\n"], ["E0 EQU 0\n"],
+                             ["E0 EQU E1\n", "E1 EQU E0\n"], ["E0 EQU E1+1\n", "E1 EQU 2\n"], ["E1 EQU E0\n", "E0 EQU E1-1\n"]])
 
 
 _HEADS = [[], [" ORG $1000\n"], [" ORG $FFF0\n"], [" ORG $FFFF\n"], [" ORG $FFFE\n"], [" ORG 0\n"], [" ORG 70000\n"], [" ORG L1\n"]]
@@ -219,12 +223,55 @@ def odd_character_cases():
                            switches=["--to_bin", "o.bin", "--to_cas", "o.cas"])
 
 
+_EQU_SHAPES = [["E0 EQU E0\n"], ["E0 EQU E1\n", "E1 EQU E0\n"], ["E0 EQU E1\n", "E1 EQU E2\n", "E2 EQU E0\n"],
+               ["E0 EQU E1+1\n", "E1 EQU E0+1\n"], ["E0 EQU E1\n", "E1 EQU E0+1\n"], ["E0 EQU E1\n", "E1 EQU E2\n", "E2 EQU 5\n"],
+               ["E0 EQU E1\n", "E1 EQU L0\n"], ["E0 EQU L0-E0\n"], ["E0 EQU E1*2\n", "E1 EQU E2-1\n", "E2 EQU E0\n"],
+               ["E0 EQU NOSUCH\n"], ["E0 EQU E1\n"], ["E0 EQU E1\n", "E1 EQU E2\n", "E2 EQU E3\n", "E3 EQU E1\n"]]
+_EQU_USES = [None, " LDA E0\n", " LDA #E0\n", " LDX #E1+1\n", " FCB E0\n", " FDB E0,1\n", " LDA E0,X\n", " JMP [E0]\n", " RMB E0\n",
+             " LDA E0,PCR\n", " BRA E0\n"]
+
+
+def equ_cycle_cases():
+    """symbols defined through each other: cycles of aliases and of expressions, chains, undefined ends; unused or
+    used in every operand position, definitions before or after the use"""
+    for shape in _EQU_SHAPES:
+        for use in _EQU_USES:
+            body = ["L0 NOP \n"] + ([use] if use else [])
+            yield dict(kind="lines", cls="equ_cycle", lines=[" ORG $1000\n"] + shape + body)
+            yield dict(kind="lines", cls="equ_cycle", lines=[" ORG $1000\n"] + body + list(reversed(shape)))
+        yield dict(kind="cli", cls="cli", lines=[" ORG $1000\n"] + shape + ["L0 NOP \n", " LDA #E0\n"], switches=["--to_bin", "o.bin"])
+
+
+def long_input_cases():
+    """very long tokens, lines and programs (a decimal literal beyond 4300 digits trips the interpreter's own limit)"""
+    for digits in (6, 40, 4300, 4301, 5000):
+        for ch in "19":
+            num = ch * digits
+            for tpl in (" LDA #{n}\n", " LDX #-{n}\n", " FDB {n}\n", " FCB 1,{n}\n", " LDA {n},X\n", "E0 EQU {n}\n", " RMB {n}\n",
+                        " ORG {n}\n", " LDA #1+{n}\n", " LDA #${n}\n", " LDA #%{n}\n", " JMP [{n}]\n", " LDA {n},PCR\n", " BRA {n}\n"):
+                yield dict(kind="lines", cls="long_input", lines=[tpl.format(n=num)])
+    yield dict(kind="lines", cls="long_input", lines=[" LDA #1" + " " * 20000 + "\n"])
+    yield dict(kind="lines", cls="long_input", lines=["L" * 5000 + " NOP \n", " JMP " + "L" * 5000 + "\n"])
+    yield dict(kind="lines", cls="long_input", lines=[" NOP ;" + "c" * 30000 + "\n"])
+    yield dict(kind="lines", cls="long_input", lines=[" FCC /" + "A" * 8000 + "/\n"])       # building the image is quadratic in the string length: 70000 would take ~20 s
+    yield dict(kind="lines", cls="long_input", lines=[" FCB " + ",".join(["1"] * 30000) + "\n"])
+    yield dict(kind="lines", cls="long_input", lines=[" PSHS " + ",".join(["A"] * 3000) + "\n"])
+    yield dict(kind="lines", cls="long_input", lines=[" LDA #1" + "+1" * 3000 + "\n"])
+    yield dict(kind="lines", cls="long_input", lines=[" LDA " + "[" * 500 + "1" + "]" * 500 + "\n"])
+    yield dict(kind="lines", cls="long_input", lines=[" NOP \n"] * 20000)
+    yield dict(kind="lines", cls="long_input", lines=["L%d NOP \n" % i for i in range(3000)] + [" JMP L%d\n" % i for i in range(3000)])
+
+
 def enumerated(tier, seed):
     yield from odd_character_cases()
+    yield from long_input_cases()
+    yield from equ_cycle_cases()
     for case in include_catalogue():
         yield case
         yield dict(case, kind="cli_include", cls="cli", switches=["--to_bin", "o.bin", "--to_cas", "o.cas", "--to_dsk", "o.dsk"])
     for case in c03.enumerated("quick", seed):
+        if case.get("macro"):
+            continue
         if any(i["t"] == "pcr" for i in case["items"]) and not any(i["t"] == "rmb" and i["n"] > 1000 for i in case["items"]):
             yield dict(kind="lines", cls="pcr_sweep", lines=c03.build(case))
 
@@ -239,7 +286,8 @@ def searches(tier):
 def render(case):
     out = dict(case)
     if "lines" in out:
-        out["lines"] = [l.rstrip("\n") for l in out["lines"]][:40]
+        out["lines"] = [l.rstrip("\n") if len(l) <= 160 else "{}... ({} characters)".format(l[:120], len(l))
+                        for l in out["lines"]][:40]
     return out
 
 
@@ -261,7 +309,7 @@ def _judge_api(out, labels):
 def execute(case):
     kind = case["kind"]
     labels = ["class:" + case["cls"]]
-    special = case["cls"] in ("pcr_sweep", "include", "cli", "odd_chars")
+    special = case["cls"] in ("pcr_sweep", "include", "cli", "odd_chars", "long_input", "equ_cycle")
     if kind == "lines":
         out = driver.assemble(case["lines"])
         bad = _judge_api(out, labels)
